@@ -33,14 +33,24 @@ Reserved       == [][pc = "post" => \A i \in DOMAIN doc.objs : i \in DOMAIN doc'
 RefinesLinks   == Built => Links(adds, Og)
 RefinesCarries == Built => Carries(adds, Og, Pages, PageIds(np))
 RefinesToc     == \A i \in 1..Len(tocs) : TocIs(tocs[i], ReadBackWith(adds, Pages))
+\* "any depth": no forest makes a walker run out of stack
+NoAbort        == pc # "abort"
+\* build_outline may only decline when the object numbers do not suffice, and then it changes nothing
+RefusedOk      == pc = "refused" => ~Enough /\ doc = InitDoc(np)
 Verdict        == pc = "done" => Judge(adds, np, PageIds(np), adjusted, Og, tocs) = "ok"
 
+NoRoom == 999999      \* "the numeric limit is far away"
+
 EmitInv ==
-    (Emit /\ pc = "done") =>
+    (Emit /\ pc \in {"done", "refused"}) =>
         PrintT(<<"REPLAY", ToJson([np |-> np, adds |-> adds, adjust |-> adjusted, post |-> doc.post, link |-> doc.link,
-                                   exp |-> [toc |-> ReadBackWith(adds, Pages),
-                                            pages |-> Pages,
-                                            pre |-> PreOrder(adds),
-                                            ids |-> [root |-> doc.root - Base(np), max |-> Og.items[Len(Og.items)].aid - Base(np),
-                                                     items |-> [j \in 1..Len(Og.items) |-> Og.items[j].id - Base(np)]]]])>>)
+                                   dests |-> env.dsp, room |-> IF env.idlimit < 1000 THEN Room ELSE NoRoom,
+                                   exp |-> IF pc = "refused"
+                                           THEN [refused |-> TRUE]
+                                           ELSE [refused |-> FALSE,
+                                                 toc |-> ReadBackWith(adds, Pages),
+                                                 pages |-> Pages,
+                                                 pre |-> PreOrder(adds),
+                                                 ids |-> [root |-> doc.root - Base(np), max |-> Og.items[Len(Og.items)].aid - Base(np),
+                                                          items |-> [j \in 1..Len(Og.items) |-> Og.items[j].id - Base(np)]]]])>>)
 =============================================================================
